@@ -5,3 +5,4 @@ if [ "$1" = "-e" ]; then EXPR="$2"; FILE="$3"; shift 3; sed -i "$EXPR" "/repo/$F
 git -C /repo diff --stat | tail -1
 for p in "$@"; do python3 /verif/tools/check.py "$p" 2>&1 | grep -E "VIOLATION|KNOWN|Error" | head -4; echo "$p rc=$?"; done
 git -C /repo checkout -- .
+python3 /verif/tools/srcfacts.py >/dev/null
